@@ -164,11 +164,12 @@ def _check(pid, P, tier, seed, bdir, ev):
             continue
         # which functions serve this property
         tags = lemma_tags(cfg)
+        pids = set([pid] + list(P.get('include', [])))   # a property may rest on the functions/lemmas of others (e.g. C01 on key generation)
         serving = {}
         for f in meta['functions']:
-            if pid in f.get('serves', []) or (P.get('all_functions') and f['mode'] in ('verified', 'transparent')):
+            if (pids & set(f.get('serves', []))) or (P.get('all_functions') and f['mode'] in ('verified', 'transparent')):
                 serving[f['key']] = f
-        lemma_serving = {nm: t for nm, t in tags.items() if pid in t['serves'] or 'ALL' in t['serves']}
+        lemma_serving = {nm: t for nm, t in tags.items() if (pids & set(t['serves'])) or 'ALL' in t['serves']}
         # per-function accounting
         for key, f in sorted(serving.items()):
             vn = VR.resolve_name(r, f['verus_name'])
